@@ -540,8 +540,12 @@ HandleData(st, d, tape, hl, dbg) ==
             c1 == ApplyUpdate(c, Mem(h.src, h.inc, "A"), TRUE)
         IN IF ~c1.r
            THEN \* inactive sender: payload discarded
-                LET c2 == IF h.msg.k = "TurnUndead" THEN HandleSelfUpdate(c1, 0, "D") ELSE c1
-                    c3 == IF Live(c2) /\ c2.st.cfg.notifydown
+                LET wasUndead == c1.st.conn = "U"
+                    c2 == IF h.msg.k = "TurnUndead" THEN HandleSelfUpdate(c1, 0, "D") ELSE c1
+                    \* (fix 7418747) a TurnUndead that finds the instance already Undead is not
+                    \* answered with another TurnUndead: that reply loop never ended
+                    stale == h.msg.k = "TurnUndead" /\ wasUndead
+                    c3 == IF Live(c2) /\ c2.st.cfg.notifydown /\ ~stale
                           THEN SendMessage(c2, h.src, Msg("TurnUndead", 0, NoId))
                           ELSE c2
                 IN Finish(c3, "Ok")
